@@ -86,12 +86,12 @@ BodyStep ==
 
 \* "nomutex": a Sequential handler's mutex is not taken
 MutNoMutex(g) ==
-  /\ Mutant = "nomutex" /\ InvAt(g, "enter") /\ ~SeqFree(g)
+  /\ Mutant = "nomutex" /\ AtEnter(g) /\ ~SeqFree(g)
   /\ EnterBody(g, Top(g).reg, Top(g).pub)
 
 \* entering a body loads its script
 EnterStep ==
-  \E g \in Gs : /\ InvAt(g, "enter")
+  \E g \in Gs : /\ AtEnter(g)
                 /\ (Enter(g, Top(g).reg, Top(g).pub) \/ MutNoMutex(g))
                 /\ scr' = (InvKey(g) :> attr[Top(g).reg].body) @@ scr
                 /\ UNCHANGED <<nreg, hist>>
@@ -145,7 +145,7 @@ MutClaimFirst(g) ==
   /\ UNCHANGED <<cfg, reg, attr, seqHolder, cancelled, closed, pubs, npub, gh>>
 Mutants == \E g \in Gs : MutSnapshotLive(g) \/ MutClaimRacy(g) \/ MutWaitEarly(g) \/ MutClaimFirst(g)
 
-Internal == \E g \in Gs : InternalStep(g)
+Internal == \E g \in Gs : InternalStep(g) \/ TaskSkip(g)
 
 MCInit == /\ \E c \in Cfgs : InitWith(c)
           /\ scr = <<>>
